@@ -9,6 +9,7 @@ completion order).  Oracle: the property statement itself on what the implementa
 import itertools
 import queue
 import threading
+import time
 
 from common import blit, llit, olit, zlit
 
@@ -75,7 +76,7 @@ def run_impl(api, pool_size, use_ro, items, arrival):
     sequential = pool_size < 2 or n == 1
 
     def work(i, _dummy=None):
-        events[i].wait(20)
+        events[i].wait(4)
         kind, v = items[i]
         if kind == 'exc':
             raise Boom(v)
@@ -124,19 +125,17 @@ def run_impl(api, pool_size, use_ro, items, arrival):
             events[i].set()
             if state['done']:
                 continue
-            try:
-                # wait until the result of item i is in the result queue (or the consumer gave up)
-                while True:
-                    try:
-                        got = pool.result_queue.puts.get(timeout=0.05)
-                        if got == i:
-                            break
-                    except queue.Empty:
-                        if state['done'] or not t.is_alive():
-                            break
-            except Exception:
-                pass
-    t.join(10)
+            # wait until the result of item i is in the result queue (or the consumer gave up)
+            deadline = time.time() + 1.0
+            while time.time() < deadline:
+                try:
+                    got = pool.result_queue.puts.get(timeout=0.02)
+                    if got == i:
+                        break
+                except queue.Empty:
+                    if state['done'] or not t.is_alive():
+                        break
+    t.join(3)
     hang = t.is_alive()
     for e in events:
         e.set()
